@@ -30,10 +30,11 @@ THEOREMS = [
     'Pyiga.Props.C07.outer_nurbs_law', 'Pyiga.Props.C07.as_nurbs_same_map', 'Pyiga.Props.C07.getitem_component',
     'Pyiga.Props.C07.boundary_restriction', 'Pyiga.Props.C07.bdspec_table', 'Pyiga.Props.C07.boundary_function_args',
     'Pyiga.Props.C07.arc_on_circle', 'Pyiga.Props.C07.arc_segment_on_circle', 'Pyiga.Props.C07.arc_endpoints',
-    'Pyiga.Props.C07.quarter_annulus_radius', 'Pyiga.Props.C07.arcs_partial',
+    'Pyiga.Props.C07.quarter_annulus_radius', 'Pyiga.Props.C07.arcs_on_circle', 'Pyiga.Props.C07.rotation_preserves_circle',
     'Pyiga.Props.C07.translate_bspline_model', 'Pyiga.Props.C07.scale_bspline_model',
+    'Pyiga.Props.C07.getitem_bspline_model', 'Pyiga.Props.C07.tensor_product_model',
 ]
-MODULES = ['Pyiga.Model.Jet', 'Pyiga.Model.Geometry', 'Pyiga.Proofs.Jet', 'Pyiga.Proofs.Geometry', 'Pyiga.Props.C07']
+MODULES = ['Pyiga.Model.Jet', 'Pyiga.Model.Geometry', 'Pyiga.Proofs.Jet', 'Pyiga.Proofs.Geometry', 'Pyiga.Proofs.GeoLists', 'Pyiga.Proofs.Arcs', 'Pyiga.Props.C07']
 
 U = 2.0 ** -52
 
@@ -672,6 +673,7 @@ def run(ctx):
 
     # ---- defects of the pinned tree that the model reproduces as coded: the property itself fails there
     known_probes(ctx)
+    probe_copy_support(ctx)
 
     # ---- monitor: no operation altered an argument object
     ctx.obligation('monitor: byte snapshots of all argument objects unchanged over %d operations' % ctx.counters.get('monitored operations', 0),
@@ -748,6 +750,18 @@ def known_probes(ctx):
                           {'construct': 'NurbsFunc((kv,kv), arange(16.).reshape(4,4), ones((4,4))).' + what, 'output_shape': list(h.output_shape())}, True)
 
 
+def probe_copy_support(ctx):
+    from pyiga import geometry
+    for mk, what in ((geometry.unit_square, 'unit_square()'), (geometry.quarter_annulus, 'quarter_annulus()')):
+        g = mk()
+        supp = ((0.25, 0.5), (0.0, 1.0))
+        g.support = supp
+        got = tuple(tuple(float(t) for t in s) for s in g.copy().support)
+        if got != supp:
+            ctx.violation('copy-drops-support', '%s with support restricted to %s: copy().support = %s (the copy is defined on the full domain again)'
+                          % (what, supp, got), {'construct': 'g = %s; g.support = %s; g.copy().support' % (what, supp), 'got': got}, True)
+
+
 def describe(m):
     out = {'kind': m[0]}
     for x in m[1:]:
@@ -809,17 +823,22 @@ def oracle_bdspec(bd, n):
     return None
 
 
-def oracle_boundary_function(f, bd, rng):
+def oracle_boundary_function(f, bd, rng, bf=None):
     """_BoundaryFunction(f, bd) equals f with the coordinate of `axis` fixed at the end of the support"""
     from pyiga import geometry
     n = len(f.kvs)
     axis, side = bd
-    bf = geometry._BoundaryFunction(f, bd)
+    if bf is None:
+        bf = geometry._BoundaryFunction(f, bd)
     O = Oracle(f)
     fixed = float(f.support[axis][side])
     rest = [i for i in range(n) if i != axis]
+
+    def coord(i):
+        lo, hi = [float(t) for t in f.support[i]]
+        return lo + (hi - lo) * float(rng.integers(0, 9)) / 8.0
     for _ in range(3):
-        xb = [rand_coord(rng, f.kvs[i], 1)[0] for i in reversed(rest)]      # xyz order of the boundary function
+        xb = [coord(i) for i in reversed(rest)]      # xyz order of the boundary function
         full_zyx = [None] * n
         for i, t in zip(rest, reversed(xb)):
             full_zyx[i] = t
@@ -836,6 +855,35 @@ def oracle_boundary_function(f, bd, rng):
         Jt = np.concatenate((J[..., :col], J[..., col + 1:]), axis=-1)
         if not close(bf.grid_jacobian(gb)[(0,) * (n - 1)], Jt, sc):
             return '_BoundaryFunction%s.grid_jacobian at %s differs from the tangential derivatives of f at %s' % (bd, [g.tolist() for g in gb], x)
+    return None
+
+
+def oracle_support_restriction(f, rng):
+    """support restriction: `f.support = box` keeps the map, reports the box, and boundary(bdspec) becomes the
+    restriction to the face of the *box* (a _BoundaryFunction), with the named-side table"""
+    from pyiga import geometry, bspline
+    n = len(f.kvs)
+    g = f.copy()
+    box = []
+    for kv in f.kvs:
+        lo, hi = [float(t) for t in kv.support()]
+        a = int(rng.integers(0, 8)); b = int(rng.integers(a + 1, 9))
+        box.append((lo + (hi - lo) * a / 8.0, lo + (hi - lo) * b / 8.0))
+    box = tuple(box)
+    g.support = box
+    if tuple(tuple(float(t) for t in s) for s in g.support) != box:
+        return 'support setter: support reads %s after setting %s' % (g.support, box)
+    names = ['left', 'right', 'bottom', 'top', 'front', 'back'][:2 * n]
+    for name in names:
+        bd = bspline._parse_bdspec(name, n)
+        bf = g.boundary(name)
+        if not isinstance(bf, geometry._BoundaryFunction):
+            return 'boundary(%r) of a support-restricted function is a %s' % (name, type(bf).__name__)
+        if tuple(tuple(float(t) for t in s) for s in bf.support) != box[:bd[0]] + box[bd[0] + 1:]:
+            return 'boundary(%r).support = %s for box %s' % (name, bf.support, box)
+        d = oracle_boundary_function(g, bd, rng, bf=bf)
+        if d:
+            return 'support %s, boundary(%r): %s' % (box, name, d)
     return None
 
 
@@ -1023,6 +1071,10 @@ def oracle_checks(ctx, funcs):
             count += 1
             if d:
                 report('geo-oracle:boundary-function', d, describe(('bdfun', f, bd)))
+            d = oracle_support_restriction(f, rng)
+            count += 1
+            if d:
+                report('geo-oracle:support-restriction', d, describe(('support', f)))
     # operations (laws) on a sample
     for i in rng.permutation(len(funcs))[:nor]:
         f = funcs[i]
